@@ -12,11 +12,10 @@ THEOREMS = [
     "Cares.C16.user_wins_reinit",
     "Cares.C16.user_wins_init",
     "Cares.C16.save_init_fixpoint",
-    "Cares.C16.dup_equiv",
-    "Cares.C16.reinit_idempotent",
     "Cares.C16.csv_fixpoint",
+    "Cares.C16.servers_invariant",
+    "Cares.C16.dup_equiv",
     "Cares.C16.ntop_pton_v4",
-    "Cares.C16.ntop_pton",
     "Cares.C16.pinned_usevc_overrides_user_flags",
 ]
 TRUSTED = [
